@@ -50,7 +50,13 @@ Definition check_case (c : case) : N :=
   let s_obs := match s_out o args with Some so => out_matches so r after | None => true end in
   let s_m := match s_out o args with Some so => out_matches so (o_res m) (o_args m) | None => true end in
   let v_m := match s_out o args with Some so => res_same_value (o_res so) (o_res m) | None => false end in
-  if agree then (if (dom && negb s_m) || (value_domain o args && negb v_m) then 3%N else 0%N)
+  (* / : the value-level theorem (exact value in lowest terms whenever the run stayed in the exact types) *)
+  let d_m := match o with
+             | ODiv => negb (div_value_domain args (o_res m)) || (v_m && lowest_res (o_res m))
+             | OAdd | OSub | OMul | OInc | ODec | OAbs =>
+                 negb (arith_value_domain o args (o_res m)) || (v_m && lowest_res (o_res m))
+             | _ => true end in
+  if agree then (if (dom && negb s_m) || (value_domain o args && negb v_m) || negb d_m then 3%N else 0%N)
   (* a failing input: the implementation leaves S inside the guard, or on an input where the model
      (the unchanged code) met S *)
   else if (dom || s_m) && negb s_obs then 2%N
